@@ -362,7 +362,7 @@ pub struct RunOpts {
     pub log_stmts: bool,
     pub persistent_cap: usize,
     pub frame_cap: usize,
-    pub allow_process: bool,
+    pub policy: HostPolicy,
 }
 
 impl RunOpts {
@@ -372,7 +372,7 @@ impl RunOpts {
             log_stmts: false,
             persistent_cap: 256 * MEBI,
             frame_cap: 64 * MEBI,
-            allow_process: false,
+            policy: HostPolicy { allow_process: false, ..HostPolicy::default() },
         }
     }
 }
@@ -429,7 +429,7 @@ pub fn run_source(src: &str, opts: RunOpts) -> Obs {
         }
     }
 
-    let policy = HostPolicy { allow_process: opts.allow_process, ..HostPolicy::default() };
+    let policy = opts.policy;
     let mut runtime = Runtime::new_with_host_policy(
         &arena,
         if opts.mode.frame { Some(&frame) } else { None },
